@@ -87,19 +87,22 @@ struct MockLayout {
     has_cache_pos: bool,
     /// "merged" encoder-decoder layout: `.decoder.`/`.encoder.` caches + `use_cache_branch`
     enc: bool,
+    /// extra inputs fed through `with_constant_input` / `with_varying_input`
+    extra: bool,
 }
 
 impl MockLayout {
     fn show(&self) -> String {
         format!(
-            "cfg=L{}D{}H{}cap{}a{}p{}e{}",
+            "cfg=L{}D{}H{}cap{}a{}p{}e{}x{}",
             self.layers,
             if self.dims4 { 4 } else { 3 },
             self.heads,
             self.cap.map(|c| c.to_string()).unwrap_or("-".into()),
             self.has_attn as u8,
             self.has_cache_pos as u8,
-            self.enc as u8
+            self.enc as u8,
+            self.extra as u8
         )
     }
 }
@@ -115,6 +118,9 @@ struct CallLog {
     cache_pos: Option<Vec<i32>>,
     attn_len: Option<usize>,
     flag: Option<i32>,
+    /// extra inputs: the constant tensor and the `[batch, start, end]` varying tensor
+    extra_const: Option<Vec<i32>>,
+    extra_var: Option<Vec<i32>>,
     /// per slot: `None` if the input was not supplied; `Err` if heads/batch disagree
     caches_in: Vec<Option<Result<CacheContent, String>>>,
     /// per slot: what the mock returned (`None` for a failed call)
@@ -138,6 +144,7 @@ struct Mock {
     log: RefCell<Vec<CallLog>>,
     calls: Cell<u32>,
     fail_next: Cell<bool>,
+    partial_runs: Cell<u32>,
 }
 
 const VOCAB: usize = 3;
@@ -155,6 +162,10 @@ impl Mock {
         }
         if lay.has_attn {
             in_nodes.push(NodeInfo::from_name_shape("attention_mask", &[]));
+        }
+        if lay.extra {
+            in_nodes.push(NodeInfo::from_name_shape("extra_const", &[]));
+            in_nodes.push(NodeInfo::from_name_shape("extra_var", &[]));
         }
         let mut out_nodes = vec![NodeInfo::from_name_shape("logits", &[])];
         let dims: Vec<Dimension> = if lay.dims4 {
@@ -216,6 +227,7 @@ impl Mock {
             log: RefCell::new(vec![]),
             calls: Cell::new(0),
             fail_next: Cell::new(false),
+            partial_runs: Cell::new(0),
         }
     }
 
@@ -337,6 +349,10 @@ impl Model for Mock {
                 _ => lg.problems.push("use_cache_branch-bad".into()),
             }
         }
+        if self.lay.extra {
+            lg.extra_const = get("extra_const").and_then(i32s);
+            lg.extra_var = get("extra_var").and_then(i32s);
+        }
         for slot in self.slots.iter() {
             let v = owned.iter().find(|(i, _)| *i == slot.input).map(|(_, v)| v);
             lg.caches_in.push(match v {
@@ -386,12 +402,20 @@ impl Model for Mock {
     }
     fn partial_run(
         &self,
-        _inputs: Vec<(NodeId, ValueOrView)>,
+        inputs: Vec<(NodeId, ValueOrView)>,
         _outputs: &[NodeId],
         _opts: Option<RunOptions>,
     ) -> Result<Vec<(NodeId, Value)>, Box<dyn Error>> {
-        Ok(Vec::new())
+        // Nothing can be precomputed in the mock: the leaves of the partial evaluation are the
+        // constant inputs themselves.
+        self.partial_runs.set(self.partial_runs.get() + 1);
+        Ok(inputs.into_iter().map(|(id, v)| (id, v.to_owned())).collect())
     }
+}
+
+/// Extra model input registered with `with_varying_input`: `[batch, start, end]`.
+fn varying_input<'a>(batch: usize, pos: std::ops::Range<usize>) -> ValueOrView<'a> {
+    NdTensor::<i32, 1>::from([batch as i32, pos.start as i32, pos.end as i32]).into()
 }
 
 struct ScriptSampler(Rc<Cell<u32>>);
@@ -512,15 +536,23 @@ fn run_case(lay: MockLayout, ops: &[Op], distinct: bool) -> CaseResult {
     let remove_all = Rc::new(Cell::new(false));
     let seen: Rc<RefCell<Vec<Vec<u32>>>> = Rc::new(RefCell::new(vec![]));
     let cfg = GeneratorConfig { model_inputs: ModelInputsConfig::default(), kv_cache_capacity: lay.cap };
+    // extra inputs (must outlive the generator)
+    let const_tensor = NdTensor::<i32, 1>::from([11, 22, 33]);
     let generator = match Generator::from_model_config(&mock, cfg) {
         Ok(g) => g,
         Err(e) => return CaseResult { answer: format!("init-error {e}"), fail: None, observed_failure_recovery: false },
     };
-    let mut generator = Some(
+    let generator = generator
+        .with_sampler(ScriptSampler(tok_cell.clone()))
+        .with_logits_filter(ScriptFilter { remove_all: remove_all.clone(), seen: seen.clone() });
+    let generator = if lay.extra {
         generator
-            .with_sampler(ScriptSampler(tok_cell.clone()))
-            .with_logits_filter(ScriptFilter { remove_all: remove_all.clone(), seen: seen.clone() }),
-    );
+            .with_constant_input(mock.find_node("extra_const").unwrap(), const_tensor.view().into())
+            .with_varying_input(mock.find_node("extra_var").unwrap(), &varying_input)
+    } else {
+        generator
+    };
+    let mut generator = Some(generator);
 
     let mut sections = vec![];
     let mut fail: Option<String> = None;
@@ -668,6 +700,15 @@ fn run_case(lay: MockLayout, ops: &[Op], distinct: bool) -> CaseResult {
                     problems.push(format!("T1 attention mask covers {} positions, expected {}", n, start + c.toks.len()));
                 }
             }
+            if lay.extra {
+                if c.extra_const.as_deref() != Some(&[11, 22, 33][..]) {
+                    problems.push(format!("constant input not passed through unchanged: {:?}", c.extra_const));
+                }
+                let want = vec![1, start as i32, (start + c.toks.len()) as i32];
+                if c.extra_var.as_ref() != Some(&want) {
+                    problems.push(format!("varying input computed from {:?}, expected (batch, start, end) = {:?}", c.extra_var, want));
+                }
+            }
             if lay.kv && lay.enc && c.flag != Some((start != 0) as i32) {
                 problems.push(format!("use_cache_branch {:?} but first position is {}", c.flag, start));
             }
@@ -812,6 +853,13 @@ fn run_case(lay: MockLayout, ops: &[Op], distinct: bool) -> CaseResult {
             fail = Some(format!("after op {} ({}): {}", opi + 1, op.show(), problems.join("; ")));
         }
     }
+    if lay.extra && fail.is_none() {
+        let runs = mock.log.borrow().len() as u32;
+        let want = if runs > 0 { 1 } else { 0 };
+        if mock.partial_runs.get() != want {
+            fail = Some(format!("constant propagation (partial_run) ran {} times for {} model runs, expected {}", mock.partial_runs.get(), runs, want));
+        }
+    }
     CaseResult { answer: sections.join(" | "), fail, observed_failure_recovery: recovered }
 }
 
@@ -883,6 +931,7 @@ fn gen_layout(rng: &mut Rng) -> MockLayout {
         has_attn: rng.chance(4, 5),
         has_cache_pos: rng.chance(4, 5),
         enc,
+        extra: rng.chance(1, 4),
     }
 }
 
@@ -901,6 +950,9 @@ fn one(out: &mut Out, lay: MockLayout, ops: &[Op], distinct: bool) {
     out.bucket(if lay.kv { "model_with_kv_cache" } else { "model_without_kv_cache" });
     if lay.enc {
         out.bucket("model_with_encoder_caches");
+    }
+    if lay.extra {
+        out.bucket("model_with_constant_and_varying_extra_inputs");
     }
     out.bucket(&format!("ops_{:02}-{:02}", (ops.len() - 1) / 5 * 5 + 1, (ops.len() - 1) / 5 * 5 + 5));
     let first_n = ops.iter().position(|o| matches!(o, Op::N(_)));
@@ -973,11 +1025,11 @@ fn main() {
 }
 
 fn lay0(kv: bool) -> MockLayout {
-    MockLayout { kv, layers: 1, dims4: true, heads: 1, cap: None, has_attn: true, has_cache_pos: true, enc: false }
+    MockLayout { kv, layers: 1, dims4: true, heads: 1, cap: None, has_attn: true, has_cache_pos: true, enc: false, extra: false }
 }
 
 fn lay_enc() -> MockLayout {
-    MockLayout { kv: true, layers: 1, dims4: true, heads: 2, cap: None, has_attn: true, has_cache_pos: true, enc: true }
+    MockLayout { kv: true, layers: 1, dims4: true, heads: 2, cap: None, has_attn: true, has_cache_pos: true, enc: true, extra: true }
 }
 
 fn run(args: &Args) {
